@@ -141,8 +141,11 @@ def canopy_cover(
             # Canopy growth can occur
             if InitCond_CC_NS <= Crop.CC0:
                 # Very small initial canopy_cover.
-                NewCond.canopy_cover_ns = Crop.CC0 * np.exp(Crop.CGC * dtCC)
-                # print(Crop.CC0,np.exp(Crop.CGC*dtCC))
+                # (the growth curve itself, so that a day with many degree
+                # days cannot take the canopy beyond its maximum)
+                NewCond.canopy_cover_ns = cc_development(
+                    Crop.CC0, 0.98 * Crop.CCx, Crop.CGC, Crop.CDC, dtCC, "Growth", Crop.CCx
+                )
             else:
                 # Canopy growing
                 tmp_tCC = tCCadj - Crop.Emergence
@@ -199,7 +202,9 @@ def canopy_cover(
                         NewCond.protected_seed = False
 
                 else:
-                    NewCond.canopy_cover = NewCond.cc0_adj * np.exp(Crop.CGC * dtCC)
+                    NewCond.canopy_cover = cc_development(
+                        NewCond.cc0_adj, Crop.CCx, Crop.CGC, Crop.CDC, dtCC, "Growth", Crop.CCx
+                    )
 
             else:
                 # Canopy growing
